@@ -436,6 +436,18 @@ class World:
         v = gens.build(spec)
         if gens.is_sparse_spec(spec):
             v = self.to_sparse(v)
+        lay = spec.get("layout") if isinstance(spec, dict) else None
+        if lay and isinstance(v, np.ndarray) and v.ndim == 2:
+            # memory layouts a caller may legitimately hand over (the pristine world builds
+            # the same layout, so strides are equal on both sides)
+            if lay == "F":
+                v = np.asfortranarray(v)
+            elif lay == "T":
+                v = np.ascontiguousarray(v.T).T          # transposed view of a C buffer
+            elif lay == "strided":
+                big = np.zeros((2 * v.shape[0], 2 * v.shape[1]), dtype=v.dtype)
+                big[::2, ::2] = v
+                v = big[::2, ::2]                         # non-contiguous view
         return v
 
     # ---- fault plans ---------------------------------------------------------------
